@@ -3,7 +3,7 @@
 s=$1; p=${s%_*}
 wt=/tmp/sv/wt_$s
 git -C /repo worktree add --detach -q $wt HEAD || exit 2
-cd $wt && (git apply /tmp/seed/out/$p/$s.diff || git apply -3 /tmp/seed/out/$p/$s.diff) || { echo "APPLY-FAILED" > /tmp/sv/tests/$s.txt; git -C /repo worktree remove --force $wt; exit 1; }
+cd $wt && (git apply ${SEED_SRC:-/tmp/seed/out}/$p/$s.diff || git apply -3 ${SEED_SRC:-/tmp/seed/out}/$p/$s.diff) || { echo "APPLY-FAILED" > /tmp/sv/tests/$s.txt; git -C /repo worktree remove --force $wt; exit 1; }
 OMP_NUM_THREADS=2 PYTHONPATH=$wt /venv/bin/python -m pytest -q -p no:cacheprovider --timeout=900 --continue-on-collection-errors --junitxml=/tmp/sv/tests/$s.xml tests > /tmp/sv/tests/$s.log 2>&1
 python3 - <<PY > /tmp/sv/tests/$s.txt
 import json, xml.etree.ElementTree as ET
